@@ -329,8 +329,13 @@ func findIDInQueue[M interface{ ID() EventID }](q *queue[M], id EventID, autoID 
 	}
 
 	if autoID {
-		id, err := strconv.ParseUint(id.String(), 10, 64)
+		idStr := id.String()
+		id, err := strconv.ParseUint(idStr, 10, 64)
 		if err != nil {
+			return -1
+		}
+		// Only the canonical decimal form was ever issued ("02" is not the ID 2).
+		if strconv.FormatUint(id, 10) != idStr {
 			return -1
 		}
 
